@@ -3,7 +3,9 @@
 Proof side (coq/Props/C09.v): running a recorded method in a world makes every recorded sample genuine
 (for every program length), genuine samples satisfy every class constraint (C03), hence with a dual
 certificate the performance is bounded by tau (weak duality).
-Tie: (H) the oracle-recording model (Model/Method.v) is compared with Function.oracle on random programs.
+Tie: (H) the oracle-recording model (Model/Method.v) is compared with Function.oracle on random programs; and every
+shipped example is traced on the real PEPit (harness/extrace.py), converted to a `list mop` when it stays inside the
+op language, and `mrun` of that program is compared with the example's real bookkeeping (stream examples-as-programs).
 Search / validation (never the proof): the SOURCE of the shipped examples is re-executed in a concrete
 world (harness/concrete.py: real members of the declared classes, exact steps) from feasible starting
 points and the achieved performance is compared with the value PEPit returns for the same parameters."""
@@ -11,13 +13,14 @@ import glob
 import math
 import os
 import random
+import re
 import time
 import warnings
 
 from . import terms as T
 from . import classes as CL
 from . import concrete as CW
-from .common import run_cases, model_output, coq_nat, coq_q, coq_list, Q, REPO
+from .common import run_cases, model_output, coq_nat, coq_q, coq_list, Q, REPO, COQ
 
 GEN_DEPS = ["Classes.v"]     # the composition theorems are about the regenerated class plans
 TRUSTED = [
@@ -33,6 +36,10 @@ TRUSTED = [
     "criterion of the option with the accuracy returned; it is the primal-dual gap of C08, Proofs/C09Steps.v "
     "iprox_spec_is_pd_gap); the model asks for a positive step size (Python divides by gamma only for 'PD_gapIII')",
     "the link between an example's Python code and the method named in its docstring is informal",
+    "harness/extrace.py: the converter from a recorded trace of a shipped example to a list mop is hand-written; what it "
+    "emits is checked by comparing mrun of the program with the real state the example built (all leaf functions, counters, "
+    "step constraints); examples using composite functions, fixed_point(), block partitions or a step at an already "
+    "evaluated point are outside the op language and are only listed",
     "harness/concrete.py (numerical members and exact steps) is used only to search for counterexamples",
 ]
 ASSUMES = [
@@ -539,8 +546,127 @@ def stream_examples(tier, seed, only=None):
                                   skipped_reasons=sorted(set(s.get("why", "")[:60] for s in skipped))[:12]))
 
 
+# ------------------------------------------------------------------ stream 3: shipped example = program of the op language
+def _reason_kind(reason):
+    """group the reasons for the histogram (the part before the first ':' or '(')"""
+    return re.split(r"[:(]", reason, 1)[0].strip()
+
+
+def stream_examples_as_programs(tier, seed, only=None):
+    """every shipped example (PEPit/examples/*/*.py, called with the parameters of tests/test_examples.py) is traced
+    on the real PEPit (harness/extrace.py), converted to a `list mop` when it stays inside the op language, and
+    `mrun ops minit` is compared with the real bookkeeping at the moment the example calls PEP.solve"""
+    from . import extrace as X
+    t0 = time.time()
+    budget = 60 if tier == "quick" else 600
+    calls = X.all_calls()
+    if only:
+        calls = [c for c in calls if any(o in c[0] for o in only)]
+    traced, outside, problems, not_traced = 0, {}, [], {}
+    cases, meta = [], []
+    hist_ops, hist_steps = {}, {}
+    n_reused = 0
+    for rel, fn, args, kw, src in calls:
+        if fn is None:
+            not_traced[rel] = src
+            continue
+        if time.time() - t0 > budget:
+            not_traced[rel] = "time budget of the tier"
+            continue
+        tr, dt, err = X.trace_example(fn, args, kw)
+        if err is not None:
+            not_traced[rel] = "tracing failed: " + err[:120]
+            continue
+        if tier == "quick" and dt >= 1.0:
+            not_traced[rel] = "tracing takes %.1f s (thorough tier only)" % dt
+            continue
+        traced += 1
+        try:
+            nf, ops, info = X.convert(tr)
+        except X.Outside as e:
+            outside[rel] = str(e)
+            continue
+        for op in ops:
+            hist_ops[op[0]] = hist_ops.get(op[0], 0) + 1
+        for s_ in info["steps"]:
+            hist_steps[s_] = hist_steps.get(s_, 0) + 1
+        n_reused += info["reused"]
+        if info["hypotheses"]:
+            problems.append(dict(kind="example-outside-the-hypotheses-of-the-theorems", example=rel,
+                                 hypotheses=info["hypotheses"]))
+        try:
+            lit = X.coq_program(nf, ops)
+        except AssertionError:
+            outside[rel] = "program too long for a nat literal"
+            continue
+        cases.append((lit, X.expected_dump(tr, wf=1)))
+        meta.append(dict(example=rel, function=fn.__name__, parameters_from=src,
+                         kwargs={k: v for k, v in kw.items() if k not in ("wrapper", "solver", "verbose")},
+                         args=list(args), nf=nf, ops=ops, n_ops=len(ops), reused_evaluations=info["reused"],
+                         steps=sorted(info["steps"])))
+    bad = run_cases("c09ex", IMPORTS, RUN, cases, input_type=INPUT_TYPE, shard=12) if cases else []
+    # a disagreement that is only floating-point rounding of the example's own coefficient arithmetic (the model
+    # computes on the exact rationals of the floats it is given) is compared again with a relative tolerance
+    rounding_only, mism = [], []
+    for i in bad:
+        out = model_output(IMPORTS, RUN, cases[i][0])
+        try:
+            close = X.close_enough(X.parse_D(out), X.plain(cases[i][1]))
+        except Exception as e:
+            close = False
+            out = "%s\n(unparsable model output: %r)" % (out, e)
+        if close:
+            rounding_only.append(meta[i]["example"])
+        else:
+            mism.append(dict(example=meta[i]["example"], kwargs=meta[i]["kwargs"], program=X.describe(meta[i]["ops"]),
+                             implementation=cases[i][1], model=out[:3000]))
+    for m in mism:
+        problems.append(dict(kind="model-run-differs-from-real-bookkeeping", example=m["example"], kwargs=m["kwargs"]))
+    kinds = {}
+    for r in outside.values():
+        kinds[_reason_kind(r)] = kinds.get(_reason_kind(r), 0) + 1
+    sample = None
+    for want in ("unconstrained_convex_minimization/proximal_point.py", "unconstrained_convex_minimization/gradient_descent.py"):
+        for i, m in enumerate(meta):
+            if m["example"] == want and sample is None:
+                sample = dict(example=m["example"], function=m["function"], kwargs=m["kwargs"], nf=m["nf"],
+                              program=X.describe(m["ops"]), coq_literal=cases[i][0], real_state=cases[i][1])
+    if sample is None and meta:
+        sample = dict(example=meta[0]["example"], kwargs=meta[0]["kwargs"], program=X.describe(meta[0]["ops"]),
+                      coq_literal=cases[0][0])
+    # is the literal of Proofs/C09Shipped.v (Example C09_shipped_proximal_point_is_a_program) still the traced program?
+    literal_ok = None
+    try:
+        src = open(os.path.join(COQ, "Proofs", "C09Shipped.v")).read()
+        m = re.search(r"Definition shipped_proximal_point_program : list mop :=\s*(.*?)\.\n", src, re.S)
+        for i, mt in enumerate(meta):
+            if m and mt["example"] == "unconstrained_convex_minimization/proximal_point.py":
+                literal_ok = " ".join(m.group(1).split()) == " ".join(X.coq_ops(mt["ops"]).split())
+    except OSError:
+        pass
+    return dict(name="examples-as-programs", evaluations=traced, distinct_nontrivial=len(cases) - len(mism),
+                rule="each shipped example file is run once on the real PEPit with its test parameters (tests/"
+                     "test_examples.py) under recording patches up to its PEP.solve call; evaluations = examples traced; "
+                     "non-trivial = examples whose whole trace is a program of Model/Method.v's op language AND whose "
+                     "`mrun ops minit` (counters, well-formedness flag, every leaf function's recorded triples in order, "
+                     "the constraints the steps put on functions) equals the real state exactly (or up to 1e-12 relative "
+                     "where the example's own float arithmetic rounds: listed in rounding_only); examples outside the "
+                     "language are listed with the first reason and are not violations",
+                n_mismatch=len(mism), mismatches=mism[:3], problems=problems[:5], n_problems=len(problems),
+                samples=[sample or dict(note="no example converted")],
+                distribution=dict(traced=traced, converted=len(cases), compared_exactly=len(cases) - len(bad),
+                                  rounding_only=rounding_only, outside_the_language=len(outside),
+                                  outside_reasons=outside, outside_reason_kinds=kinds,
+                                  outside_composite_only_through_stationary_point=sum(
+                                      1 for r in outside.values() if "only used through stationary_point" in r),
+                                  not_traced=not_traced,
+                                  ops=hist_ops, examples_per_step=hist_steps, reused_evaluations=n_reused,
+                                  coq_example_literal_is_the_traced_program=literal_ok,
+                                  wall_s=round(time.time() - t0, 1)))
+
+
 def correspondence(tier, seed, corpus=()):
-    return [stream_recording(tier, seed), stream_examples(tier, seed)]
+    return [stream_recording(tier, seed), stream_examples_as_programs(tier, seed), stream_examples(tier, seed)]
 
 
 def search(tier, seed):
